@@ -29,7 +29,7 @@ func TestWorker(t *testing.T) {
 	c := core.FromEnv()
 	c.ArmDeadline()
 	debug.SetGCPercent(200)
-	cpuBudget, heapBudget := 6.0, uint64(320<<20)
+	cpuBudget, heapBudget := 6.0, uint64(768<<20)
 	if d.cpuBudget > 0 {
 		cpuBudget = d.cpuBudget
 	}
